@@ -97,7 +97,7 @@ CLAIMED = {
         technique='Lean 4 proof: inductive representation invariant + refinement to a reference model over a hand-written executable model of the core; differential correspondence check (lock-step judge) under a ledger allocator'),
     'C13': dict(category='proof', text="Lean: panic_atomic (a panicking call leaves a well-formed state whose abstraction is the previous one — contents, lengths, kinds — except the handle moved into unsplit), no_ub for all argument values. T2: catch_unwind around every call, full handle table compared with the pre-state after every panic, script continues and ends with a balanced ledger; 'mustPanic' contract oracle (documented panics happen, in-contract calls do not panic).", design='§7 C13', note="Trusted: Lean kernel; the hand transliteration of src/bytes.rs + src/bytes_mut.rs into Model/Core.lean (tied by T1 for vtable wiring and representation constants — Cert/C01 — and otherwise by T2 only: lock-step judge compares outcome, every live handle's kind / allocation class + offset / len / capacity / is_unique / contents and the allocator-event delta after every op; ~250k ops per quick run, 0 disagreements on the unchanged tree); std's Vec/Box behaviour and the allocator contract as modelled (checked by T2); OpOK (slices <= isize::MAX); 64-bit usize.",
         technique='Lean 4 proof: inductive representation invariant + refinement to a reference model over a hand-written executable model of the core; differential correspondence check (lock-step judge) under a ledger allocator'),
-    'C18': dict(category='proof', text="Lean theorems over the recycling model (allocation size, offset, len, cap, outstanding parts, pinned older allocations, allocation count; reserve_inner's decisions), by induction over histories of ANY length: alloc_size_bounded (every allocation the buffer ever lives in, current or pinned, <= max(A0, 4M, 8)), live_bounded (peak live <= (retained allocations + 1) x that), big_enough_no_alloc (once the allocation reached 2M a refill with all parts dropped never allocates), alloc_doubles, allocs_bounded (with every part dropped before the refill the total number of byte-buffer allocations <= log2(4M+8)+3, independent of the number of rounds), rinv_step; the 'in particular' clause is reclaim_whole / reserve_whole_no_alloc over M1 (Props/C08). REFINEMENT TO M1 (Props/C18Refine, C18RefineOps): with the abstraction RecView, reserve (all four branches of reserve_inner), advance, truncate, extend_from_slice, split_to, split, drop of a part, split_off of the tail and unsplit of a contiguous part of M1 each refine the corresponding step of the recycling model incl. the allocation count (step_*_refines, run_refines), and alloc_size_bounded_M1 transfers the size bound to M1 histories. T2: the recycling model runs in lock-step with a real BytesMut under the ledger allocator over 10^3 (quick) to 3*10^5 (thorough) rounds of 8 consumption styles x retention windows x sizes, comparing allocation size, offset, len, capacity, allocation count and live bytes after every operation, and the bound functions are checked on the implementation's own ledger.", design='§7 C18', note="Trusted: Lean kernel; M1 (hand-written, tied by T2) — the recycling model itself is proved to refine M1 except for the round trip through Bytes and the pinned-allocation list (T2 only: 7.8M operations, 0 disagreements), under the side conditions listed in DESIGN §13 (advance past MAX_VEC_POS, two unsplit corner cases); the usage-pattern hypotheses HistOK / Recycled (leftover + message <= M; parts dropped before the refill) are assumptions about the caller; std Vec growth policy.",
+    'C18': dict(category='proof', text="Lean theorems over the recycling model (allocation size, offset, len, cap, outstanding parts, pinned older allocations, allocation count; reserve_inner's decisions), by induction over histories of ANY length: alloc_size_bounded (every allocation the buffer ever lives in, current or pinned, <= max(A0, 4M, 8)), live_bounded (peak live <= (retained allocations + 1) x that), big_enough_no_alloc (once the allocation reached 2M a refill with all parts dropped never allocates), alloc_doubles, allocs_bounded (with every part dropped before the refill the total number of byte-buffer allocations <= log2(4M+8)+3, independent of the number of rounds), rinv_step; the 'in particular' clause is reclaim_whole / reserve_whole_no_alloc over M1 (Props/C08). REFINEMENT TO M1 (Props/C18Refine, C18RefineOps): with the abstraction RecView, reserve (all four branches of reserve_inner), advance, truncate, extend_from_slice, split_to, split, drop of a part, split_off of the tail, unsplit (all branches), the round trip through Bytes (freeze + BytesMut::from / try_into_mut) and the pinned-allocation list of M1 each refine the corresponding step of the recycling model incl. the allocation count (step_*_refines, run_refines), and alloc_size_bounded_M1 transfers the size bound to M1 histories. T2: the recycling model runs in lock-step with a real BytesMut under the ledger allocator over 10^3 (quick) to 3*10^5 (thorough) rounds of 8 consumption styles x retention windows x sizes, comparing allocation size, offset, len, capacity, allocation count and live bytes after every operation, and the bound functions are checked on the implementation's own ledger.", design='§7 C18', note="Trusted: Lean kernel; M1 (hand-written, tied by T2) — the recycling model itself is proved to refine M1 (one side condition: advance past MAX_VEC_POS, DESIGN §13) and is additionally run in lock-step with the real crate (T2); the usage-pattern hypotheses HistOK / Recycled (leftover + message <= M; parts dropped before the refill) are assumptions about the caller; std Vec growth policy.",
         technique='Lean 4 proof: induction over histories with a potential/invariant argument on a hand-written arithmetic model; differential correspondence check under a ledger allocator'),
     'C16': dict(category='proof', text="Lean over M1: cfg_irrelevant (from every well-formed state, every operation gives the SAME outcome and state whether overflow checks and debug assertions are on or off: no unchecked +/- of the model leaves usize, no debug_assert fires), parity_irrelevant (running under any allocator parity and then forgetting parity = forgetting parity first and running with the all-even allocator: a simulation, so outcomes, contents, lengths, capacities and uniqueness coincide), erase_WFx, abs_erase. T1: inventory of every configuration-dependent site of src/** (83: cfg/cfg_attr attributes, cfg! macros, 28 debug assertions) regenerated each run and compared by a `decide +kernel` certificate with the reviewed, classified list (a new debug_assert / cfg branch breaks it). T2: identical seeded scripts (random walks, boundary sweep, pair-exhaustive) run on the real crate under {debug, release} x {even, odd} (thorough: alternating parity, no-default-features and extra-platforms builds) and the observable projection (outcome incl. panics, every handle's kind/len/capacity/is_unique/contents) is compared script by script; each configuration is also judged against M1. PARTIAL for the feature-set clause: std/no-std/extra-platforms are not distinguished by the model (review of the cfg inventory + T2 in the thorough tier only).", design='§7 C16', note="Trusted: as C01 (hand-written M1 tied by T2) + the review of the cfg-site inventory (class per site) + T1 extractor for it; release profile of the harness = overflow-checks off, debug-assertions off.",
         technique='Lean 4 proof: configuration-independence and parity-simulation theorems over a hand-written executable model of the core + per-run decide certificate over a site inventory translated from the source; differential runs of the real crate across configurations'),
